@@ -27,7 +27,7 @@ theorem C06_sound (cap : Nat) (past : List Call) (c : Call) (rid : Nat)
   obtain ⟨h1, h2, h3, h4⟩ := (decision_accept_iff _ _).mp hd
   exact ⟨c', hc', r, hr, ht, hb, hrid, h1, ht ▸ h2, h3, hwf c' hc' r hr h3, h4⟩
 
-example : (getBlock (init 1000) (Call.mk 7 true false [⟨1, true, 5, 7, true, true, false, 300⟩, ⟨2, true, 6, 7, true, true, true, 300⟩] false .nil)).result = .ret 6 := by
+example : (getBlock (init 1000) (Call.mk 7 true false [⟨1, true, 5, 7, true, true, false, 300, 0⟩, ⟨2, true, 6, 7, true, true, true, 300, 0⟩] false .nil)).result = .ret 6 := by
   decide
 
 /-- **Ban ⇔ bad block for the requested header.**  After a call that goes to
@@ -62,8 +62,8 @@ theorem C06_ban_only_by_handler (s : State) (c : Call) (h : (getBlock s c).queri
     · simp at h
     · simp at h
 
-example : (getBlock (init 1000) (Call.mk 7 true false [⟨1, true, 5, 7, true, true, false, 300⟩, ⟨3, true, 9, 8, false, false, false, 300⟩,
-              ⟨2, true, 6, 7, true, true, true, 300⟩] false .nil)).st.bans = [1] := by
+example : (getBlock (init 1000) (Call.mk 7 true false [⟨1, true, 5, 7, true, true, false, 300, 0⟩, ⟨3, true, 9, 8, false, false, false, 300, 0⟩,
+              ⟨2, true, 6, 7, true, true, true, 300, 0⟩] false .nil)).st.bans = [1] := by
   decide
 
 /-- **Everything else is ignored.**  A response that is not a block, or is a
@@ -99,10 +99,39 @@ theorem C06_retry_after_ban (s : State) (c : Call) (r : Resp) (hk : c.known = tr
 /-- three peers: the first sends the requested header with a forged witness
 commitment (banned), the second another block (ignored), the third the valid
 block: it is returned, and peer 1 is banned. -/
-example : (getBlock (init 1000) (Call.mk 7 true false [⟨1, true, 5, 7, true, true, false, 300⟩,
-      ⟨2, true, 9, 8, true, true, true, 300⟩, ⟨3, true, 6, 7, true, true, true, 300⟩] false .nil)).result = .ret 6 ∧
-    (getBlock (init 1000) (Call.mk 7 true false [⟨1, true, 5, 7, true, true, false, 300⟩,
-      ⟨2, true, 9, 8, true, true, true, 300⟩, ⟨3, true, 6, 7, true, true, true, 300⟩] false .nil)).st.bans = [1] := by
+example : (getBlock (init 1000) (Call.mk 7 true false [⟨1, true, 5, 7, true, true, false, 300, 0⟩,
+      ⟨2, true, 9, 8, true, true, true, 300, 0⟩, ⟨3, true, 6, 7, true, true, true, 300, 0⟩] false .nil)).result = .ret 6 ∧
+    (getBlock (init 1000) (Call.mk 7 true false [⟨1, true, 5, 7, true, true, false, 300, 0⟩,
+      ⟨2, true, 9, 8, true, true, true, 300, 0⟩, ⟨3, true, 6, 7, true, true, true, 300, 0⟩] false .nil)).st.bans = [1] := by
+  decide
+
+/-- **Identity is the header hash.**  A response whose header hash is not the
+requested one is ignored whatever else it shares with the requested header — in
+particular a re-mined sibling (`sib = t`: same parent, same merkle root, hence
+the same transactions, sane, valid witness commitment, valid proof of work for
+its own bits): nothing is found, nobody is banned, no progress is reported.  And
+what the handler decides never depends on `sib` at all. -/
+theorem C06_sibling_ignored (t : Nat) (h : HState) (r : Resp) (hr : r.hdr ≠ t) :
+    decision t r = .ignore ∧ handle t h r = (h, .none) ∧
+    ∀ (r' : Resp) (x : Nat), decision t { r' with sib := x } = decision t r' := by
+  have hd : decision t r = .ignore := (decision_ignore_iff t r).mpr (Or.inr hr)
+  refine ⟨hd, ?_, fun r' x => rfl⟩
+  unfold handle
+  rw [hd]
+
+/-- peers 1 and 2 answer a request for block 7 with re-mined siblings (header ids
+140, 141; same parent and merkle root as 7; perfectly valid blocks): the call
+fails, nobody is banned, nothing is cached.  With the genuine block after them
+it is the genuine block that is returned. -/
+example :
+    (getBlock (init 1000) (Call.mk 7 true false [⟨1, true, 5, 140, true, true, true, 300, 7⟩,
+      ⟨2, true, 6, 141, true, true, true, 300, 7⟩] false .nil)).result = .errNotFound ∧
+    (getBlock (init 1000) (Call.mk 7 true false [⟨1, true, 5, 140, true, true, true, 300, 7⟩,
+      ⟨2, true, 6, 141, true, true, true, 300, 7⟩] false .nil)).st.bans = [] ∧
+    (getBlock (init 1000) (Call.mk 7 true false [⟨1, true, 5, 140, true, true, true, 300, 7⟩,
+      ⟨2, true, 6, 141, true, true, true, 300, 7⟩] false .nil)).st.cache.items = [] ∧
+    (getBlock (init 1000) (Call.mk 7 true false [⟨1, true, 5, 140, true, true, true, 300, 7⟩,
+      ⟨3, true, 8, 7, true, true, true, 300, 7⟩] false .nil)).result = .ret 8 := by
   decide
 
 /-- **Fail closed.**  If the cache has nothing under the key and no response of
@@ -152,7 +181,7 @@ theorem C06_cache_after_success (s : State) (c : Call) :
       · exact Or.inl h1
       · subst h1; exact Or.inr ⟨rfl, hrid⟩
 
-example : (getBlock (init 1000) (Call.mk 7 true false [⟨2, true, 6, 7, true, true, true, 300⟩] true .err)).st.cache.items = [] := by
+example : (getBlock (init 1000) (Call.mk 7 true false [⟨2, true, 6, 7, true, true, true, 300, 0⟩] true .err)).st.cache.items = [] := by
   decide
 
 /-- the handler's answers line up with the responses it saw: `Finished` exactly
